@@ -15,6 +15,8 @@ plan = {
            {"op": "unprotect", "fl": .., "net": .., "blob": {"rk": i, "sid": s, "pos": [l0,l1,l2], "mode": "nonce"|"pub", "trailing": bool, "data": n}
                                                    | {"from_op": k, "relayout": bool}, "group": g|None, "cache": "shared"|"fresh"},
            {"op": "clock", "advance_ticks": n} | {"op": "clock", "set_ft": n},
+           {"op": "identity", "sids": [...]}          # the authenticated caller's group memberships from now on
+           {"op": "partition", "on": bool},
          ] }
 """
 from __future__ import annotations
@@ -235,6 +237,13 @@ def execute_plan(plan: dict, kdf_limit: int = 300, keep_events: bool = False) ->
                         world.clock.advance_ns(op["advance_ticks"] * 100)
                     world.stats["clk"] += 1
                     world.log("op.clock", world.clock.ns)
+                    ot.outcome = drive.Outcome("ok", None)
+                    tr.ops.append(ot)
+                    i += 1
+                    continue
+                if kind == "identity":
+                    ot = OpTrace(i, op)
+                    dc.caller_sids = set(op["sids"])
                     ot.outcome = drive.Outcome("ok", None)
                     tr.ops.append(ot)
                     i += 1
